@@ -1,6 +1,6 @@
 #!/bin/bash
 # sens_all.sh [pattern] : run every mutant of /verif/mutants (optionally only those matching the pattern) against the quick check of its property
-cd /verif
+cd "$(dirname "$(readlink -f "$0")")"
 for p in mutants/${1:-C}*.patch; do
   id=$(basename $p | cut -d- -f1)
   ./sens run $id $p 2>&1 | grep "^SENS"
